@@ -195,21 +195,73 @@ def _nest(n):
 
 
 def _parso_locks():
-    """Lock objects owned by parso (module globals, class attributes).  A thread that holds one is not
-    parked: the thread that gets the baton could block on it for good (every other thread waits for
-    its own baton).  Regions protected by a lock of parso's are therefore atomic in the simulation."""
+    """[(owner, attribute name, lock)] for lock objects among parso's module globals and class attributes."""
     import _thread
     lock_types = (_thread.LockType, _thread.RLock)
     found = []
     for name, mod in sorted(sys.modules.items()):
         if not (name == 'parso' or name.startswith('parso.')) or mod is None:
             continue
-        for v in list(vars(mod).values()):
+        for k, v in list(vars(mod).items()):
             if isinstance(v, lock_types):
-                found.append(v)
+                found.append((mod, k, v))
             elif isinstance(v, type) and getattr(v, '__module__', '') == name:
-                found.extend(x for x in vars(v).values() if isinstance(x, lock_types))
+                found.extend((v, a, x) for a, x in list(vars(v).items()) if isinstance(x, lock_types))
     return found
+
+
+class SimLock:
+    """Stand-in for a lock of parso's while the scheduler runs: acquiring it is a scheduling point.
+    A thread may be parked while it holds the lock; a thread that then asks for it with a blocking
+    acquire hands the baton on (it is not runnable until the lock is free), a non-blocking acquire
+    returns False - both deterministic, decided by the same switch list as every other hand-off."""
+
+    def __init__(self, sched, reentrant):
+        self.sched = sched
+        self.reentrant = reentrant
+        self.owner = None
+        self.count = 0
+
+    def acquire(self, blocking=True, timeout=-1):
+        s = self.sched
+        me = s.cur
+        if self.owner is None or (self.reentrant and self.owner == me):
+            self.owner = me
+            self.count += 1
+            return True
+        s.lock_contended += 1
+        if not blocking or timeout == 0:
+            return False
+        tried = 0
+        while self.owner is not None:
+            s.blocked[me] = self
+            s._switch(me)
+            s.blocked[me] = None
+            tried += 1
+            if timeout is not None and timeout > 0 and tried >= 2 and self.owner is not None:
+                return False                      # a timed acquire gives up after it has been passed over twice
+        self.owner = me
+        self.count = 1
+        return True
+
+    __enter__ = acquire
+
+    def release(self):
+        if self.owner is None:
+            raise RuntimeError('release unlocked lock')
+        self.count -= 1
+        if self.count <= 0:
+            self.owner = None
+            self.count = 0
+
+    def __exit__(self, *a):
+        self.release()
+
+    def locked(self):
+        return self.owner is not None
+
+    def _is_owned(self):
+        return self.owner == self.sched.cur
 
 
 def _held(lock):
@@ -262,7 +314,11 @@ class Scheduler:
         self.aborted = set()
         self.cur_op = [None] * self.nthreads
         self.prev_line = [(0, 0)] * self.nthreads
-        self.locks = _parso_locks()
+        self.blocked = [None] * self.nthreads
+        self.lock_contended = 0
+        self.deadlock = False
+        self.simlocks = []               # (owner object, attribute, real lock, stand-in)
+        self.locks = []                  # real locks the scheduler cannot replace (none known): never parked while held
         self.probe = None                # called as probe(step, frame) at every counted line (profiling runs)
 
     # -- schedule tape
@@ -373,15 +429,24 @@ class Scheduler:
                 self._switch(me)
         return self.local_trace
 
+    def _runnable(self, t):
+        b = self.blocked[t]
+        return b is None or b.owner is None
+
     def _switch(self, me):
-        cands = [t for t in self.alive if t != me and self.frozen.get(t, 0) <= self.spos]
+        alive = [t for t in self.alive if t != me and self._runnable(t)]
+        cands = [t for t in alive if self.frozen.get(t, 0) <= self.spos]
         if not cands:
-            cands = [t for t in self.alive if t != me]
+            cands = alive
         pick = self.pick
         if self.fz:
             self.frozen[me] = self.spos + self.fz
         self._next_switch()
         if not cands:
+            if self.blocked[me] is not None and self.blocked[me].owner is not None:
+                # nobody can run and this thread waits for a lock: a deadlock of the code under test
+                self.deadlock = True
+                raise _Abort('deadlock: every thread waits for a lock')
             return
         nxt = cands[pick % len(cands)]
         both = self.in_op[me] and self.in_op[nxt]
@@ -427,7 +492,8 @@ class Scheduler:
             self.in_op[tid] = False
             self.alive.remove(tid)
             if self.alive and self.error is None:
-                cands = [t for t in self.alive if self.frozen.get(t, 0) <= self.spos] or self.alive
+                run = [t for t in self.alive if self._runnable(t)] or self.alive
+                cands = [t for t in run if self.frozen.get(t, 0) <= self.spos] or run
                 nxt = cands[self.pick % len(cands)]
                 self.trace.append((self.steps, tid, nxt, False))
                 self.cur = nxt
@@ -437,6 +503,23 @@ class Scheduler:
 
     def run(self):
         _install_rearm(self)
+        self.install_locks()
+        try:
+            return self._run()
+        finally:
+            for owner, attr, lock, stand_in in self.simlocks:
+                setattr(owner, attr, lock)
+
+    def install_locks(self):
+        import _thread
+        if self.simlocks:
+            return
+        for owner, attr, lock in _parso_locks():
+            stand_in = SimLock(self, isinstance(lock, _thread.RLock))
+            self.simlocks.append((owner, attr, lock, stand_in))
+            setattr(owner, attr, stand_in)
+
+    def _run(self):
         threads = [threading.Thread(target=self._body, args=(i,), daemon=True) for i in range(self.nthreads)]
         for t in threads:
             t.start()
@@ -467,6 +550,13 @@ FIRST_USE_MODULES = ('parso.grammar', 'parso.python.tokenize')
 DEFAULT_RECURSION_LIMIT = 1000
 
 
+def _apply_warn_error(plan):
+    # an application that runs with -W error (pytest's filterwarnings = error, python -X dev ...)
+    if plan['config'].get('warn_error'):
+        import warnings
+        warnings.simplefilter('error')
+
+
 def _in_thread(fn):
     """The reference executes its calls in a thread of their own, like the scheduled execution does:
     both start from the same stack depth (matters for code nested deeply enough to hit the limit)."""
@@ -488,6 +578,7 @@ def _in_thread(fn):
 def child_reference(plan):
     from . import fingerprint
     sys.setrecursionlimit(DEFAULT_RECURSION_LIMIT)
+    _apply_warn_error(plan)
     _warm(plan)
     fp0 = fingerprint.fingerprint(True)
     sh0 = fingerprint.shallow_state()
@@ -514,11 +605,13 @@ def child_concurrent(plan, generate, seed):
     switch list `more[i]`).  Every round's outcomes are compared with the sequential reference."""
     from . import fingerprint
     sys.setrecursionlimit(DEFAULT_RECURSION_LIMIT)
+    _apply_warn_error(plan)
     _warm(plan)
     s = Scheduler(plan, generate, seed).run()
     out = {'outcomes': {'%d.%d' % k: v for k, v in s.outcomes.items()}, 'error': s.error,
            'steps': s.steps, 'switches': plan['switches'][:s.spos], 'trace': list(s.trace),
-           'nontrivial_switches': s.nontrivial_switches, 'step_cap': s.step_cap_hit, 'more': []}
+           'nontrivial_switches': s.nontrivial_switches, 'step_cap': s.step_cap_hit, 'more': [],
+           'deadlock': s.deadlock, 'lock_contended': s.lock_contended}
     more = plan.setdefault('more', [])
     for r in range(plan['config'].get('rounds', 1) - 1):
         if out['error'] or out['step_cap']:
@@ -530,6 +623,8 @@ def child_concurrent(plan, generate, seed):
         out['more'].append(sub['switches'][:s2.spos])
         out['error'] = s2.error
         out['step_cap'] = s2.step_cap_hit
+        out['deadlock'] = s2.deadlock
+        out['lock_contended'] += s2.lock_contended
         out['steps'] += s2.steps
         out['nontrivial_switches'] += s2.nontrivial_switches
         out['trace'].append(('round', r + 1))
@@ -606,6 +701,7 @@ STATEFUL_TEXTS = [
     "from __future__ import whatever\nfrom __future__ import annotations, division\n",
     "[x := i for i in range(5)]\n[i := 0 for i, j in range(5)]\nprint([(y := f(x), y**2) for x in data])\n",
     "[i+1 for i in (i := range(5))]\n{(a := 1): (b := 2) for a in c for b in d}\n",
+    "x = '\\d' + b'\\q' + '\\N{DASH}' + '\\x4'\ny = 'fine\\n' 'a\\db'\n",
 ]
 
 
@@ -704,7 +800,8 @@ def make_plan(seed, tier='quick'):
            'warm': versions if warm else [], 'first': rng.randrange(nthreads), 'sequential': sequential, 'perm': perm,
            'rounds': 1 if sequential else rng.choice([1, 1, 2, 3]), 'pgen_atomic': rng.random() < 0.5,
            'burst': rng.choice([0, 0, 100, 400, 1500]) if not warm else 0,
-           'newline_p': rng.choice([0.0, 0.0, 0.1, 0.3, 0.5]), 'freeze_p': rng.choice([0.0, 0.0, 0.05, 0.2])}
+           'newline_p': rng.choice([0.0, 0.0, 0.1, 0.3, 0.5]), 'freeze_p': rng.choice([0.0, 0.0, 0.05, 0.2]),
+           'warn_error': rng.random() < 0.25}
     if rng.random() < 0.12:
         # one call is interrupted (KeyboardInterrupt) at its n-th traced line; the others, and every call
         # once more afterwards, must behave as if nothing had happened
@@ -735,12 +832,14 @@ def child_profile(plan):
     tracker as probe: where (at which traced line) does this call write to process-wide state?"""
     from . import writes
     sys.setrecursionlimit(DEFAULT_RECURSION_LIMIT)
+    _apply_warn_error(plan)
     _warm(plan)
     res = []
     for op in plan['threads'][0]:
-        tracker = writes.WriteTracker()
         sub = dict(plan, threads=[[op]], switches=[], more=[], config=dict(plan['config'], first=0, perm=None))
         s = Scheduler(sub, False, 0)
+        s.install_locks()                # (before the tracker takes its baseline: this rebinds module globals)
+        tracker = writes.WriteTracker()
         s.probe = tracker.probe
         s.run()
         res.append({'events': tracker.events, 'steps': s.steps, 'error': s.error, 'cells': tracker.n_cells,
@@ -833,6 +932,7 @@ def make_scan_plan(seed, idx, tier='quick'):
         ops = [_scan_op(rng, version) for _ in range(nops)]
     cfg = {'quantum': rng.choice([30, 300, 3000]), 'warm': [] if cold else [version], 'first': 0, 'sequential': False,
            'perm': None, 'rounds': 1, 'pgen_atomic': rng.random() < 0.5, 'burst': 0, 'newline_p': 0.0, 'freeze_p': 0.0,
+           'warn_error': rng.random() < 0.3,
            'scan': {'cold': cold, 'systematic': mode == 0, 'max_attempts': 8 if tier == 'quick' else 16}}
     return {'sim': 'threadsim', 'seed': seed, 'config': cfg, 'threads': [ops], 'switches': [], 'more': []}
 
@@ -898,6 +998,7 @@ def run_scan(seed, tier, scan=None):
     prof = prof[1]
     dig = hashlib.sha1()
     last_plan = scan
+    budget = {'directed': scan['config']['scan']['max_attempts'], 'interrupts': scan['config']['scan']['max_attempts'] // 2}
     for op, pr in zip(scan['threads'][0], prof):
         stats['scan.calls_profiled'] = stats.get('scan.calls_profiled', 0) + 1
         stats['scan.lines_profiled'] = stats.get('scan.lines_profiled', 0) + pr['steps']
@@ -933,7 +1034,11 @@ def run_scan(seed, tier, scan=None):
         other = dict(base, threads=[[dict(op)], [dict(_scan_op(rng, op['v']), k=op['k'])]])
         ref = _in_child(child_reference, base)
         ref_other = None
-        for a, (strat, s, pre) in enumerate(directed_prefixes(events, rng, scan['config']['scan']['max_attempts'])):
+        ref_flip = None
+        # (the attempts are a budget of the plan, not of the call: the same write - e.g. the warnings filter
+        # around every string literal - shows up in every call of a chunk)
+        for a, (strat, s, pre) in enumerate(directed_prefixes(events, rng, max(2, budget['directed']))):
+            budget['directed'] -= 1
             if _late():
                 stats['scan.cut_short_by_deadline'] = 1
                 break
@@ -943,8 +1048,16 @@ def run_scan(seed, tier, scan=None):
             p = copy.deepcopy(other if use_other else base)
             p['switches'] = [list(x) for x in pre]
             p['config']['directed_at'] = [strat, s]
-            r = evaluate(p, True, seed * 131 + a, reference=ref_other if use_other else ref)
+            reference = ref_other if use_other else ref
+            if a % 2 == 1 and not use_other:
+                # every other attempt with the opposite warnings configuration (-W error on / off)
+                p['config']['warn_error'] = not base['config'].get('warn_error')
+                if ref_flip is None:
+                    ref_flip = _in_child(child_reference, dict(base, config=dict(base['config'], warn_error=p['config']['warn_error'])))
+                reference = ref_flip
+            r = evaluate(p, True, seed * 131 + a, reference=reference)
             stats['scan.directed_runs'] = stats.get('scan.directed_runs', 0) + 1
+            stats['lock.contended'] = stats.get('lock.contended', 0) + r.get('stats', {}).get('lock.contended', 0)
             last_plan = p
             if r['harness_error']:
                 res['harness_error'] = r['harness_error']
@@ -964,7 +1077,8 @@ def run_scan(seed, tier, scan=None):
             if e[0] not in steps_seen:
                 steps_seen.append(e[0])
         cand = [(st, off) for off in (0, -1, 1) for st in steps_seen[:6]]
-        for a, (st, off) in enumerate(cand[:max(2, scan['config']['scan']['max_attempts'] // 2)]):
+        for a, (st, off) in enumerate(cand[:max(1, budget['interrupts'])]):
+            budget['interrupts'] -= 1
             if _late() or st + off < 1:
                 break
             p = copy.deepcopy(base)
@@ -1006,6 +1120,8 @@ def evaluate(plan, generate, seed, reference=None):
     v = None
     if c['step_cap']:
         v = {'clause': 'livelock', 'sig': 'livelock', 'detail': 'an op exceeded the step cap under interleaving'}
+    elif c.get('deadlock'):
+        v = {'clause': 'deadlock', 'sig': 'deadlock', 'detail': 'every thread waits for a lock of parso (%s)' % c['error']}
     elif c['error']:
         return {'violation': None, 'harness_error': c['error'], 'digest': '', 'steps': c['steps'],
                 'nontrivial': False, 'switch_digest': ''}
@@ -1079,7 +1195,7 @@ def evaluate(plan, generate, seed, reference=None):
     digest = hashlib.sha1(repr((tr, sorted(c['outcomes'].items()), c['steps'])).encode()).hexdigest()
     return {'violation': v, 'harness_error': None, 'digest': digest, 'steps': c['steps'],
             'nontrivial': c['nontrivial_switches'] > 0, 'switch_digest': sd, 'switches': len(tr),
-            'nontrivial_switches': c['nontrivial_switches']}
+            'nontrivial_switches': c['nontrivial_switches'], 'stats': {'lock.contended': c.get('lock_contended', 0)}}
 
 
 def _short(o):
